@@ -123,7 +123,7 @@ static void visit(double id, int depth)
             else { cnt *= dims[i]; if (cnt * ms > DATA_CAP) want = 0; }
         }
         if (want) {
-            unsigned char *buf = (unsigned char *)malloc((size_t)(cnt * ms));
+            unsigned char *buf = (unsigned char *)calloc((size_t)(cnt * ms), 1);
             ADF_Read_All_Data(id, NULL, (char *)buf, &err);
             if (err != NO_ERROR) printf("X err %d\n", err);
             else printf("X ok %lld %x\n", cnt * ms, cksum(buf, (size_t)(cnt * ms)));
